@@ -84,6 +84,11 @@ pub fn alphabet(scheme: Scheme, init_seq: u64, own_pub: &[u8], other_pub: &[u8])
     a.push(Op::Insert(k("s"), Val::Str("héllo wörld".into())));
     a.push(Op::Insert(k("client"), Val::L(vec![b"Nimbus".to_vec(), b"v1".to_vec()])));
     a.push(Op::Insert(k("client"), Val::L(vec![b"one".to_vec()])));
+    // a byte string that WRAPS an encoded client list (double encoding): not a client entry
+    a.push(Op::Insert(k("client"), Val::B(Val::L(vec![b"Nimbus".to_vec(), b"v1".to_vec()]).canonical())));
+    a.push(Op::Insert(k("client"), Val::B(Val::L(vec![b"a".to_vec(), b"b".to_vec(), b"c".to_vec()]).canonical())));
+    a.push(Op::Insert(k("client"), Val::LL(vec![vec![b"Nimbus".to_vec(), b"v1".to_vec()]])));
+    a.push(Op::Insert(k("tcp"), Val::B(vec![0x82, 0x1f, 0x90])));
     a.push(Op::Insert(k("ll"), Val::LL(vec![vec![vec![1], vec![]], vec![]])));
     a.push(Op::Insert(vec![], Val::B(vec![1, 2])));
     // long keys: 55 / 56 bytes (RLP header form changes) and one that cannot fit
@@ -220,6 +225,7 @@ pub fn alphabet(scheme: Scheme, init_seq: u64, own_pub: &[u8], other_pub: &[u8])
     }
     // remove_insert
     let ri = |rm: &[&str], ins: Vec<(Vec<u8>, Vec<u8>)>| Op::RemoveInsert(rm.iter().map(|s| s.as_bytes().to_vec()).collect(), ins);
+    a.push(ri(&[], vec![]));
     a.push(ri(&["ip", "udp"], vec![]));
     a.push(ri(&["x"], vec![(k("y"), vec![1, 2])]));
     a.push(ri(&["absent", "absent"], vec![(k("tcp"), vec![0x1f, 0x90])]));
@@ -300,6 +306,17 @@ fn inits_uncached(scheme: Scheme, own: u64) -> Vec<(String, u64, Init)> {
             BEntry::Client("Lighthouse".into(), "v5".into(), None),
         ]),
     ));
+    // a record that also carries an entry of ANOTHER scheme's key name (application data as far as this key type
+    // is concerned)
+    {
+        let foreign = if scheme == Scheme::Ed {
+            BEntry::Add(b"secp256k1".to_vec(), Val::B(vec![9, 9, 9, 9, 9]))
+        } else {
+            BEntry::Add(b"ed25519".to_vec(), Val::B(crate::util::unhex("d75a980182b10ab7d54bfed3c964073a0ee172f3daa62325af021a68f707511a").unwrap()))
+        };
+        v.push(("built-foreign-key-entry".into(), 254, Init::Build(vec![BEntry::Seq(254), foreign.clone(), BEntry::Tcp4(1)])));
+        v.push(("built-foreign-key-entry-near-max".into(), u64::MAX - 2, Init::Build(vec![BEntry::Seq(u64::MAX - 2), foreign])));
+    }
     for s in [0u64, 127, 255, 65_535, 0xffff_ffff, u64::MAX - 1, u64::MAX] {
         v.push((format!("built-seq-{s}"), s, Init::Build(vec![BEntry::Seq(s), BEntry::Add(b"x".to_vec(), Val::U8(9)), BEntry::Udp4(1)])));
     }
